@@ -238,6 +238,23 @@ func runC17(res *Result, tier string, seed int64, replay string) {
 		h, err := renderPlain(src)
 		ds, isVal := detailsOf(err)
 		res.Case(src, len(injected) > 0)
+		// the same document behind three more blank lines, both compiled through the cache: every line must move by three
+		if i < n && len(injected) > 0 && i%3 == 0 {
+			var e1, e2 error
+			safely(func() { _, e1 = mjml.Render(src, mjml.WithCache()) })
+			safely(func() { _, e2 = mjml.Render("\n\n\n"+src, mjml.WithCache()) })
+			d1, _ := detailsOf(e1)
+			d2, _ := detailsOf(e2)
+			okc := len(d1) == len(d2) && len(d1) == len(ds)
+			for k := 0; okc && k < len(d1); k++ {
+				if d1[k].line != ds[k].line || d2[k].line != ds[k].line+3 {
+					okc = false
+				}
+			}
+			if !okc {
+				res.Violate(Violation{Sig: "line-not-on-start-tag|cached", Kind: "input", What: fmt.Sprintf("compiled through the cache, the document and the same document behind three blank lines report lines %v and %v (uncached: %v)", d1, d2, ds), Input: map[string]string{"source": src}})
+			}
+		}
 		if i%90 == 0 {
 			res.Sample(map[string]string{"kind": "injected", "source": short(src, 300)})
 		}
